@@ -731,7 +731,11 @@ class _PairsClassifierMixin(BaseMetricLearner, ClassifierMixin):
 
     if strategy in ['max_tpr', 'max_tnr']:
       if strategy == 'max_tpr':
-        indices = np.where(1 - fpr >= min_rate)[0]
+        # (the true negative rate as a ratio of counts: 1 - 9/10 is smaller
+        # than 1/10 in floating point)
+        n_neg = np.sum(np.asarray(y_valid) != 1)
+        tnr = (n_neg - np.rint(fpr * n_neg)) / n_neg
+        indices = np.where(tnr >= min_rate)[0]
         imax = np.argmax(tpr[indices])
 
       if strategy == 'max_tnr':
